@@ -1,7 +1,7 @@
 (* C02: eps-copy round trip equals the original and agrees with full copy. *)
 Require Import EV.Base.Tac EV.Base.Bytes EV.Base.Res EV.Base.ListX.
 Require Import EV.Model.Arith64 EV.Model.Types EV.Model.Layout EV.Model.Ser EV.Model.Deser EV.Model.Header EV.Model.Typing EV.Model.Need.
-Require Import EV.Proofs.Monads EV.Proofs.RoundTrip EV.Proofs.HeaderRT EV.Proofs.EpsRT EV.Proofs.EpsTop.
+Require Import EV.Proofs.Monads EV.Proofs.RoundTrip EV.Proofs.HeaderRT EV.Proofs.EpsRT EV.Proofs.EpsTop EV.Proofs.CoverP.
 
 (* From a buffer whose base address is a multiple of the largest alignment unit in the type,
    eps-copy deserialization of the serialized bytes succeeds, consumes exactly the stream, and
@@ -41,6 +41,24 @@ Theorem C02_eps_in_context :
     RTE base (ser pf t v) (deser_eps base t) (ER v) (need t v).
 Proof. intros base. exact (proj1 (slice_eps_all base)). Qed.
 
+(* The two unit hypotheses hold for every type of the grammar outside the known class D10: they
+   follow from well-formedness as soon as every range type inside [t] has a size that is a power
+   of two ([ranges_pow2], Proofs/CoverP.v; in particular for every type without ranges) and every
+   repr(align(n)) attribute is a power of two (rustc's own rule, [aligns_ok]). *)
+Theorem C02_unit_hypotheses_hold_outside_D10 :
+  forall t, wf t = true -> aligns_ok t = true -> ranges_pow2 t = true ->
+            units_pow2 t = true /\ units_cover t = true.
+Proof. intros t W A R. split; [exact (wf_units_pow2 t W A R) | exact (wf_units_cover t W R)]. Qed.
+
+Theorem C02_types_without_ranges_are_outside_D10 :
+  forall t, no_ranges t = true -> ranges_pow2 t = true.
+Proof. exact no_ranges_ranges_pow2. Qed.
+
+(* and units_pow2 fails only because of a range *)
+Theorem C02_unit_hypothesis_fails_only_on_ranges :
+  forall t, wf t = true -> aligns_ok t = true -> units_pow2 t = false -> ranges_pow2 t = false.
+Proof. exact units_pow2_only_fails_on_ranges. Qed.
+
 (* The known class (D10): a unit that is not a power of two. From a 64-aligned buffer the
    stream of a Vec<RangeTo<[u32; 3]>> is refused with AlignmentError. *)
 Definition d10_ty : ty := TVec (TRange RTo (TArray 3 (TPrim (PInt U32)))).
@@ -68,3 +86,6 @@ Proof. vm_compute. repeat split; try reflexivity. discriminate. Qed.
 Print Assumptions C02_eps_roundtrip.
 Print Assumptions C02_modes_agree.
 Print Assumptions C02_eps_in_context.
+Print Assumptions C02_unit_hypotheses_hold_outside_D10.
+Print Assumptions C02_types_without_ranges_are_outside_D10.
+Print Assumptions C02_unit_hypothesis_fails_only_on_ranges.
